@@ -46,5 +46,9 @@ func Write(e *Evidence) error {
 func ReplayDir() string {
 	d := filepath.Join(filepath.Dir(Dir()), "replay")
 	_ = os.MkdirAll(d, 0o755)
+	// replay material may contain emitted .go files: keep it out of the harness module
+	if _, err := os.Stat(filepath.Join(d, "go.mod")); err != nil {
+		_ = os.WriteFile(filepath.Join(d, "go.mod"), []byte("module replay\n\ngo 1.23.0\n"), 0o644)
+	}
 	return d
 }
